@@ -40,7 +40,8 @@ ChainRule(c) == R([BaseMarkers EXCEPT !["ab"] = M("anything", c)], <<Lit("/z/"),
 RulesMatch == {R(BaseMarkers, p, h, hd, <<>>) : p \in PathTpls, h \in HostTpls, hd \in HdrTpls}
 \* between two literals, so that an ungrouped alternation would split the whole pattern
 MidRule(lang) == R([BaseMarkers EXCEPT !["ab"] = M(lang, <<>>)], <<Lit("/z/"), Ref("ab"), Lit("/e")>>, <<>>, <<>>, <<>>)
-RulesLang == {AnyRule(l) : l \in {"integer", "lowercase", "enum", "alt", "date", "uuid", "anything"}} \cup {MidRule(l) : l \in {"enum", "alt", "lowercase"}}
+HeaderLangRule(lang) == R([BaseMarkers EXCEPT !["k"] = M(lang, <<>>)], <<Lit("/q")>>, <<>>, <<Lit("k-"), Ref("k")>>, <<>>)
+RulesLang == {HeaderLangRule("enum_sp")} \cup {AnyRule(l) : l \in {"integer", "lowercase", "enum", "alt", "date", "uuid", "anything"}} \cup {MidRule(l) : l \in {"enum", "alt", "lowercase"}}
 \* a marker captured from the HOST keeps non-ASCII text as it is (paths are percent-encoded before capture)
 HostChainRule(c) == R([BaseMarkers EXCEPT !["h"] = M("anyhost", c)], <<Lit("/q")>>, <<Ref("h"), Lit(".example.com")>>, <<>>, <<>>)
 \* the same rules with explicitly declared variables, shortest name first
